@@ -115,6 +115,22 @@ class History(object):
                 ob = rl.inspect(other, other_model_od, od, tag="operand after %s: " % k)
                 for clause, detail in ob:
                     self.bad("operand-" + clause, detail)
+            elif k == "union_norenorm":
+                # union(other, renorm=False) with an operand that holds pixels on a COARSER level and does not overlap the
+                # region: the result is a valid multi-level region that has not been through _renorm
+                dc = max(1, min(D - 1, op["depth"]))
+                if dc >= D:
+                    raise SkipOp()
+                pix = sorted(set(int(p) % (12 * 4 ** dc) for p in op["pix"]))
+                om = rl.to_level(set(pix), dc, D)
+                if om & self.model:
+                    raise SkipOp()
+                other = Region(maxdepth=D)
+                other.add_pixels(pix, dc)
+                self.real.union(other, renorm=False)
+                self.model |= om
+                self._mutating()
+                self.flags["raw_union"] = True
             elif k == "sky_within":
                 pts, expect = rl.query_points(self.model, D, op["picks"])
                 for p_ in op.get("pixels", []):      # explicit level-D pixels (e.g. the ones an edit just moved)
